@@ -73,7 +73,10 @@ class DictE:
         self.items = dict(items or {})
 
     def copy(self):
-        return DictE(self.items)
+        d = DictE(self.items)
+        if "default_factory" in self.__dict__:  # collections.defaultdict keeps its factory across path forks
+            d.default_factory = self.default_factory
+        return d
 
 
 class ObjE:
